@@ -43,6 +43,11 @@ RelClause(e) ==
 \* tables are logged sorted by id, so equality of the sequences is equality of the tables
 SaveLoadClause(e) == IF KeysUnique(e.loaded) /\ e.loaded = e.before /\ e.after = e.before
                      THEN <<"ok", "">> ELSE <<"C16.Persist", e.fmt>>
+\* load into the same master: the saved pairs are back and no address is mapped twice
+LoadClause(e) == LET a == Fn(e.after)  f == Fn(e.file) IN
+  IF ~KeysUnique(e.after) \/ ~Injective(a) THEN <<"C16.Injective", "two ids share an address after load_dhcp()">>
+  ELSE IF \E i \in DOMAIN f : At(a, i) # f[i] THEN <<"C16.Persist", "a saved lease is missing after load_dhcp()">>
+  ELSE <<"ok", "">>
 Expected(e) == LET b == Fn(e.before) al == Alloc(b, e.id, e.via) IN IF al = NoAddr THEN At(b, e.id) ELSE al
 
 TInit == Init /\ tid \in 1..Len(Traces) /\ l = 1 /\ verdict = <<"ok", "">> /\ drift = 0
@@ -50,6 +55,7 @@ Step == /\ verdict[1] = "ok" /\ l <= Len(Tr) /\ l' = l + 1 /\ tid' = tid /\ UNCH
         /\ LET e == Tr[l] IN
            /\ verdict' = CASE e.op = "req" -> ReqClause(e) [] e.op = "rel" -> RelClause(e)
                            [] e.op = "saveload" -> SaveLoadClause(e)
+                           [] e.op = "save" -> <<"ok", "">> [] e.op = "load" -> LoadClause(e)
            /\ drift' = IF e.op = "req" /\ At(Fn(e.after), e.id) # Expected(e) THEN drift + 1 ELSE drift
 TSpec == TInit /\ [][Step]_tvars
 Report == (verdict[1] # "ok" \/ l > Len(Tr)) => PrintT("VERDICT " \o ToString(<<tid, l - 1, verdict[1], verdict[2], drift>>))
